@@ -501,12 +501,38 @@ func dynamicScenario(file string) sched.Scenario {
 			levels = append(levels, k)
 		}
 		sort.Strings(levels)
-		type cell struct{ cur, target string }
-		cells := []cell{{"", ""}} // the open/close cell
+		type cell struct {
+			cur, target string
+			stale       bool // the driver's cached level wrongly says "target" (the device moved behind its back)
+		}
+		cells := []cell{{"", "", false}} // the open/close cell
+		// open/close with a user option layered on the definition: another default desired level, which the
+		// definition's own "acquire-priv" on-open/on-close steps (they name no target) must then go to
+		hasAcq := false
+		for _, st := range rp.NetworkOnOpen {
+			if st["operation"] == "acquire-priv" && st["target"] == nil {
+				hasAcq = true
+			}
+		}
+		for _, l := range levels {
+			if hasAcq && l != rp.Default && reachable(t, root, l) && reachable(t, l, rp.Default) {
+				cells = append(cells, cell{"", l, false})
+			}
+		}
 		for _, c := range levels {
 			for _, g := range levels {
 				if reachable(t, c, g) {
-					cells = append(cells, cell{c, g})
+					cells = append(cells, cell{c, g, false})
+					// a stale cache must not be trusted over the prompt -- where the current prompt is matched by its own level only
+					amb := 0
+					for _, o := range levels {
+						if matches(t.Levels[o], t.Prompts[c]) {
+							amb++
+						}
+					}
+					if c != g && amb == 1 {
+						cells = append(cells, cell{c, g, true})
+					}
 				} else {
 					w.Extra("pairs_skipped_no_escalate_command", 1)
 				}
@@ -515,6 +541,9 @@ func dynamicScenario(file string) sched.Scenario {
 		for _, c := range cells {
 			c := c
 			tag := fmt.Sprintf("%s cur=%s target=%s", name, c.cur, c.target)
+			if c.stale {
+				tag += " stale-cache"
+			}
 			if r := w.Replaying(); r != nil && r.Case != tag {
 				continue
 			}
@@ -541,7 +570,11 @@ func dynamicScenario(file string) sched.Scenario {
 				var openErr, acqErr, closeErr error
 				mark, mark2 := 0, 0
 				e.Go("client", func() {
-					p, err := platform.NewPlatform(name, "dev", append(cm.BaseOpts(tr, cm.Ms, time.Second, 0), options.WithAuthSecondary(cm.Secret))...)
+					popts := append(cm.BaseOpts(tr, cm.Ms, time.Second, 0), options.WithAuthSecondary(cm.Secret))
+					if c.cur == "" && c.target != "" {
+						popts = append(popts, options.WithDefaultDesiredPriv(c.target))
+					}
+					p, err := platform.NewPlatform(name, "dev", popts...)
 					if err != nil {
 						openErr = err
 						return
@@ -558,6 +591,9 @@ func dynamicScenario(file string) sched.Scenario {
 					if c.cur != "" {
 						d.Cur = c.cur
 						n.CurrentPriv = c.cur
+						if c.stale {
+							n.CurrentPriv = c.target
+						}
 						acqErr = n.AcquirePriv(c.target)
 						mark2 = len(d.Lines)
 						return
@@ -586,7 +622,11 @@ func dynamicScenario(file string) sched.Scenario {
 					e.Observe("final=%s", d.Cur)
 					if c.cur == "" {
 						// open ran the on-open steps, close the on-close steps
-						want := append(t.Path(root, rp.Default), onxLines(rp.NetworkOnOpen)...)
+						def := rp.Default
+						if c.target != "" {
+							def = c.target
+						}
+						want := append(t.Path(root, def), onxLines(rp.NetworkOnOpen)...)
 						got := nonEmpty(d.Lines[:mark])
 						if strings.Join(got, "|") != strings.Join(want, "|") {
 							vio("c17:on-open-steps:"+name, "device received %q want %q", got, want)
